@@ -103,7 +103,7 @@ def rule_slot(ctx, M, u):
         if ws:
             ok, bad = bi.must_reach([t for _, t in ee], [w[0] for w in ws], exits)
             if not ok:
-                r = bi.body.reach([t for _, t in ee], avoid_blocks=[w[0] for w in ws], stop_blocks=exits, avoid_edges=avoid)
+                r = bi.reach_from_edges(ee, avoid_blocks=[w[0] for w in ws], stop_blocks=exits, avoid_edges=avoid)
                 if any(x in r for x in exits):
                     probs.append("error is not stored on every Err path")
         re_ = bi.outcome_edges(c.site, "Ready")
@@ -118,7 +118,7 @@ def rule_slot(ctx, M, u):
         if not S:
             probs.append("slot state is not set Ready on the Err path")
         else:
-            r = bi.body.reach([t for _, t in ee], avoid_blocks=S, stop_blocks=exits, avoid_edges=avoid)
+            r = bi.reach_from_edges(ee, avoid_blocks=S, stop_blocks=exits, avoid_edges=avoid)
             if any(x in r for x in exits):
                 probs.append("slot state is not set Ready on every Err path")
         if probs:
